@@ -399,7 +399,7 @@ func childMain(args []string) {
 	seed, _ := strconv.ParseUint(args[1], 10, 64)
 	n, _ := strconv.Atoi(args[2])
 	big := args[3] == "true"
-	dl := len(args) > 4 && args[4] == "dl" // calls carry a context that ends while they run
+	dl := len(args) > 4 && args[4] == "dl"                    // calls carry a context that ends while they run
 	say := func(s string) { os.Stdout.WriteString(s + "\n") } // one write(2) per line, unbuffered
 	if c := os.Getenv("WAZERO_CACHE"); c != "" {
 		sq.Initialize(c)
@@ -817,12 +817,12 @@ func main() {
 
 	var jobs []func() caseOut
 	nseq, nops, ncrash := 24, 40, 30
-	ndl, ndlops := 12, 150
-	nho, nhoops := 6, 14 // hand-off shaped deadline cases (big Import / RemoveKeys)
+	ndl, ndlops := 16, 150
+	nho, nhoops := 8, 14 // hand-off shaped deadline cases (big Import / RemoveKeys)
 	if r.Thorough() {
 		nseq, nops, ncrash = 300, 60, 400
-		ndl, ndlops = 120, 300
-		nho, nhoops = 60, 30
+		ndl, ndlops = 80, 300
+		nho, nhoops = 40, 30
 	}
 	if r.Replay != "" {
 		// a crash is not replayable by construction; sequential lines are re-applied to a fresh real store
@@ -882,9 +882,6 @@ func main() {
 		}
 	}
 	r.Extra["case_wall_s_by_kind"] = wallBy
-	for k, v := range profT {
-		fmt.Fprintln(os.Stderr, k, profN[k], v/time.Duration(profN[k]))
-	}
 	for _, c := range results {
 		for _, l := range c.lines {
 			if l.raw {
